@@ -99,17 +99,28 @@ def check_case(case, cap):
     flag_names = []
     si = [0]
 
+    def count_ops_(ops):
+        return sum(1 + (count_ops_(op[2]) + (count_ops_(op[3]) if op[3] else 0) if op[0] == "if" else 0) for op in ops)
+    if count_ops_(ph["body"]) != len(stmts):
+        return "builder produced %d statements for %d operations" % (len(stmts), count_ops_(ph["body"])), info
+
     def walk(ops):
         for op in ops:
             if op[0] == "if":
-                flag_names.append(stmts[si[0]].assignee)
+                st0 = stmts[si[0]]
+                if type(st0).__name__ != "Assign" or st0.assignee_subscript:
+                    raise ValueError("statement %s created for an if_ is not a flag assignment" % st0.id)
+                flag_names.append(st0.assignee)
                 si[0] += 1
                 walk(op[2])
                 if op[3]:
                     walk(op[3])
             else:
                 si[0] += 1
-    walk(ph["body"])
+    try:
+        walk(ph["body"])
+    except ValueError as e:
+        return "builder produced %s" % e, info
     if si[0] != len(stmts):
         return "builder produced %d statements for %d operations" % (len(stmts), si[0]), info
     handed = []
